@@ -216,9 +216,11 @@ complete description of a call `c` issued when the calls and results so far are 
 
 /-- `-d -`, whatever the calls return (hence under every fault plan and every interleaving with other
 processes), whatever the configuration, the registry and the input are: every call of the run is one of
-the calls listed above.  (Audit au1: "the run" is the model's - the spool is walked with fuel 64 and cleaned with `loop 64`;
-an oracle whose `readdir` returns more than that many names makes the model stop where mdsort would continue.  Under `runPlan`
-- the spool holds one file - the fuel suffices: `C04_stdin_spool_removed` could not hold otherwise.) -/
+the calls listed above.  (Audit au1 / package p12: "the run" is the model's - the spool is walked with fuel `64 + env.extraFuel` and cleaned
+with a loop of the same allowance; an oracle whose `readdir` returns more than that many names makes the model stop where
+mdsort would continue - the final state then has `fuelOut = true` (no longer silent).  Covered: every `env`, i.e. every
+allowance; a run that ends with `fuelOut = false` is the run of the unbounded loops (`C04_fuel_irrelevant`).  Under
+`runPlan` - the spool holds one file - the standard fuel suffices: `C04_stdin_spool_removed` could not hold otherwise.) -/
 theorem C05_dry_stdin (env : PEnv) (orc : EvalOracles) (ok : Bool) (conf : List ConfBlock) (files : Files) (input : Bytes)
     (hd : env.dryrun = true) (hm : env.stdinMode = true) (orcl : Nat → Call → Res) :
     ∀ i c r, (runOracle orcl (mainP env orc ok conf files input) 0 []).2[i]? = some (c, r) →
